@@ -91,6 +91,7 @@ class C08:
             "qiskit converter, state tomography); after EVERY call the observable state of EVERY live object is compared with its state "
             "before the call (only the call's target may change; nothing if it raised) and with the model. Non-trivial = a history "
             "with >= 1 rejected call and >= 1 accepted add whose argument is used again afterwards; distinct = distinct history JSON")
+    COQ_TARGETS = ["theories/Exec/RunCircuit.vo"]
     CHUNK = 40
     TRUSTED = ["Python floats vs exact rationals compared at 1e-9"]
     ASSUMPTIONS = ["shared Parameter objects are excepted by design (not generated here; see C10)"]
